@@ -90,7 +90,16 @@ def funcdef(draw, indent=0, method=False, depth=0, hazards=(), feat=None):
     def fmt(p):
         return p["name"] + (": %s" % p["ann"] if p["ann"] else "") + ((" = %s" if p["ann"] else "=%s") % p["default"] if p["default"] is not None else "")
 
-    args = ([first] if method and not static else []) + [fmt(p) for p in ps]
+    pos = [fmt(p) for p in ps]
+    if ps and draw(st.integers(0, 5)) == 0:
+        k = draw(st.integers(1, len(ps)))  # positional-only marker after the k-th parameter
+        pos.insert(k, "/")
+        feat.append("positional-only")
+    self_arg = first
+    if method and not static and ps and all(p["default"] is not None for p in ps) and draw(st.integers(0, 5)) == 0:
+        self_arg = first + "=None"
+        feat.append("defaulted-self")
+    args = ([self_arg] if method and not static else []) + pos
     if vararg:
         args.append("*args")
     elif kwonly:
